@@ -441,6 +441,10 @@ func verifyCRLSignature(result *crlreader.CRLReadResult, chains *core.Certificat
 	var signatureCert *core.CertificateChainEntry
 	crlVerified := false
 	for _, certCandidate := range certCandidates {
+		if keyUsage := certCandidate.Certificate.KeyUsage; keyUsage != 0 && keyUsage&x509.KeyUsageCRLSign == 0 {
+			//the key usage extension is present and does not permit signing of CRLs (RFC 5280 4.2.1.3)
+			continue
+		}
 		strategies := result.HashAndVerifyStrategy
 		err := strategies.VerifyStrategy.VerifySignature(strategies.HashStrategy, certCandidate.Certificate.PublicKey, result.CalculatedSignature, result.Signature.Bytes)
 		if err == nil {
